@@ -213,9 +213,16 @@ func truncateSample(v any) any {
 	return out
 }
 
+var curT *testing.T
+
+// T returns the *testing.T of the sub-check currently running (for
+// synctest.Test, t.TempDir and the like inside Exec).
+func T() *testing.T { return curT }
+
 // Run executes the sub-check: replay mode if VERIF_REPLAY names this check,
 // search mode otherwise.
 func Run[S any](t *testing.T, spec Spec[S]) {
+	curT = t
 	if rp := os.Getenv("VERIF_REPLAY"); rp != "" {
 		runReplay(t, spec, rp)
 		return
